@@ -251,8 +251,13 @@ def run(ctx):
         "module": "Poulpy.Props.C13Kernel",
         "theorems": kernel_thms,
         "axioms": kernel_axioms,
-        "covers": "and / or / xor (32 per-bit circuits each, support {a_i, b_i}) and identity (32, support {a_i}): 128 of the 290 per-bit "
-                  "circuits, all inputs, by the support lemma (Lemmas/BddSupport.lean) + `decide +kernel` on the regenerated tables",
+        "circuits_covered": 290,
+        "circuits_total": 290,
+        "covers": "all 290 per-bit circuits, all inputs, without bv_decide: and / or / xor (32 each, support {a_i, b_i}) and identity (32, "
+                  "support {a_i}) by the support lemma (Lemmas/BddSupport.lean) + `decide +kernel`; add / sub (32 each, carry chain), "
+                  "slt / sltu (1 each, comparison chain), sll / srl / sra (32 each, barrel shifter) by the verified checker "
+                  "(Lemmas/BddSim.lean: `check_sound`, proved once) against specification automata (Lemmas/BddSpecs.lean, identified with the "
+                  "BitVec operations once per family from core carry / shift lemmas) + `decide +kernel` of `checkFlat` on each regenerated table",
         "ok": ok_k,
     }
     if not ok_k:
